@@ -7,7 +7,7 @@ HOOKS = {
     'add_only': True,
 }
 ENGINES = [
-    {'name': 'tlc+vectors', 'path': '/verif/vlib', 'serves_properties': ['C16'],
+    {'name': 'tlc+vectors', 'path': '/verif/vlib', 'serves_properties': ['C09', 'C11', 'C12', 'C15', 'C16', 'C17'],
      'kind_free_text': 'TLA+ reference specification of a function/grammar; TLC checks the laws on every case of a '
                        'bounded domain (one state per case) and emits the cases as vectors that are executed against '
                        'the real code'},
@@ -16,6 +16,17 @@ NOTES = ('All checks: ./check <id> --tier quick|thorough; VERIF_SEED, VERIF_TIER
          'Specifications under /verif/spec, known findings in /verif/known_findings.json, design in DESIGN.md.')
 NOT_YET = {}
 CHECKS = {
+    'C15': dict(
+        engine='tlc+vectors', technique='TLA+ information-flow spec (Redact.tla) checked by TLC; every structural case replayed into the real filters with capturing logger, lineage client and MQ',
+        design_ref='DESIGN.md 2.5, 5/C15',
+        text='TLC proves NoCleartextAtSink of Redact.tla (information-flow model: configuration path -> normalisation -> '
+             'sinks, Mask nodes where the code masks) for the intended design on every case (10 filter classes x top '
+             'container x key x nestings x single/comma x fault mode x scheme class x character class); for each named '
+             'deviation TLC exhibits the leaking case, which is replayed on the code. One vector per structural case is '
+             'instantiated with unique secrets and executed on the real filter classes: root-logger records, lineage events '
+             'and frames handed downstream are searched for the password, and the host must stay readable.',
+        note='state space = set of cases; masking regexes are uninterpreted in TLA+ and exercised per scheme/character '
+             'class; vidgear and MQ replaced by stand-ins; six built-in filters driven through __init__/init/fini only'),
     'C16': dict(
         engine='tlc+vectors', technique='TLA+ reference spec (Allowlist.tla) checked by TLC; all cases replayed into the real exporter',
         design_ref='DESIGN.md 2.5, 5/C16',
